@@ -388,6 +388,11 @@ theorem C09_arith_keeps (name : String) (S R : Spec) (o : Operand) (h : binop na
   · simp only [binOut, binopPopIds_eq]
     cases o <;> simp [Operand.isSpectrum, Operand.popIds]
 
+/-- The binary templates construct their result with `copy=True`: the new Spectrum owns its data and mask buffers.
+    (Only this constructor flag is tied by translation; that no buffer is shared in fact — result vs operands, both
+    directions, after later masking — is checked on the implementation by L3, aliasing is not part of the value-level model.) -/
+theorem C09_arith_fresh : binopCopies = true := rfl
+
 /-- The same for the in-place templates; labels of `self` are untouched. -/
 theorem C09_inplace_keeps (name : String) (S R : Spec) (o : Operand) (h : inplace name S o = .ok R) :
     ∃ M, methodOf name = some M ∧ name ∈ inplaceMethods
